@@ -50,6 +50,14 @@ EXTRA = [
     'cat <<-\'EOF\'\n\tliteral $1\n\tEOF',
     'cat <<A <<B\nfirst\nA\nsecond\nB',
     'while read -r l; do echo "got $l"; done <<EOF\nl1\nl2\nEOF',
+    'inner() { cat; } <<E2\nnested body\nE2\ninner; echo after; unset -f inner',
+    'inner() { cat; } <<E2 && echo defined\nnested body\nE2\ninner | cat; unset -f inner',
+    'set -- p q; for x; do echo "arg $x"; done; for y in; do echo never; done; echo end',
+    'if cat <<EOF; then echo yes; fi\ncond body\nEOF',
+    'if true & then echo z; fi; wait',
+    'cat <<EOF &\nbg body\nEOF\nwait; echo waited',
+    'cat <<EOF | tr a-z A-Z; echo next\npiped body\nEOF',
+    '{ cat; echo in-group; } <<EOF\ngroup body\nEOF',
 ]
 HERE_RE = re.compile(r"<<-?\s*['\"\\]?[A-Z]")
 
